@@ -27,19 +27,20 @@ std::string h_gen(Src& s) {
         // fixed shape of the known finding: two blocked pops, abort, a third pop invoked in the window
         return "queue bounded=1 cap=4 elem=0 prefill=0 threads=4 throw=0 witness=1\nt 0 W" + std::to_string(s.range(1, 6)) + " A W1 P1 P2 P3 Q Q\nt 1 O\nt 2 O\nt 3 W" + std::to_string(s.range(1, 9)) + " O\n";
     }
-    bool bounded = s.flip(); int cap = bounded ? s.range(1, 4) : 0;
-    int elem = (int)s.choose(6); int nt = s.range(2, 4);
+    bool af = drv_flag("--afault");      // focused leg: a page allocation fails while several threads push into the queue
+    bool bounded = af ? s.coin(4) : s.flip(); int cap = bounded ? s.range(1, 4) : 0; if (af && bounded) cap = 4;
+    int elem = (int)s.choose(6); int nt = af ? s.range(3, 4) : s.range(2, 4);
     static const int pf[] = { 0, 1, 3, 7, 9, 31, 33, 65, 70 }; int prefill = pf[s.choose(9)];
     if (bounded && prefill > cap) prefill = s.range(0, cap);
     static const int TAIL[] = { 0, 9, 17, 40 };
-    int thr = s.coin(5) ? s.range(1, 6) : 0; int athr = (!thr && !drv_flag("--no-alloc-fault") && s.coin(7)) ? s.range(1, 4) : 0;
+    int thr = (!af && s.coin(5)) ? s.range(1, 6) : 0; int athr = (!thr && !drv_flag("--no-alloc-fault") && (af || s.coin(7))) ? s.range(1, 4) : 0;
     std::string o = "queue bounded=" + std::to_string(bounded) + " cap=" + std::to_string(cap) + " elem=" + std::to_string(elem) + " prefill=" + std::to_string(prefill) + " threads=" + std::to_string(nt) + " throw=" + std::to_string(thr) + (athr ? " athrow=" + std::to_string(athr) : "") + " tail=" + std::to_string(TAIL[s.weighted({ 4, 2, 2, athr ? 4u : 1u })]) + "\n";
     bool abort_used = athr != 0;   // allocation failure is not combined with abort(): abort_push allocates inside a clean-up guard (destructor) -> std::terminate (DESIGN 11.17)
     for (int t = 0; t < nt; t++) {
         o += "t " + std::to_string(t); int nops = s.range(1, 7);
         for (int k = 0; k < nops; k++) {
             int v = t * 100 + k + 1;
-            uint32_t c = bounded ? s.weighted({ 5, 1, 2, 4, 3, abort_used ? 0u : 1u, 1 }) : s.weighted({ 6, 2, 0, 0, 5, 0, 1 });
+            uint32_t c = af ? s.weighted({ 9, 2, bounded ? 2u : 0u, 0, 3, 0, 1 }) : bounded ? s.weighted({ 5, 1, 2, 4, 3, abort_used ? 0u : 1u, 1 }) : s.weighted({ 6, 2, 0, 0, 5, 0, 1 });
             switch (c) {
             case 0: o += " P" + std::to_string(v); break;
             case 1: o += " E" + std::to_string(v); break;
